@@ -68,6 +68,16 @@ func genHistory(r *vlib.Rand, flag string, n int) hist {
 		safe = safe[:len(safe)-2] // a new declaration could clash with q: that is the cross-conflict stream
 		safe = append(safe, "kind-first")
 	}
+	everUsed := map[string]bool{}
+	note := func(p *progs.Prog) {
+		if p != nil {
+			for _, d := range p.Decls {
+				everUsed[d.Name] = true
+			}
+		}
+	}
+	note(cur)
+	note(q)
 	running := true
 	for len(h.ops) < n {
 		switch x := r.Intn(100); {
@@ -83,7 +93,22 @@ func genHistory(r *vlib.Rand, flag string, n int) hist {
 			if flag != "" && r.Chance(40) {
 				kind = flag
 			}
-			next := edit(r, cur, kind, o, q)
+			eo := o
+			if kind == "add-last" {
+				// a name no version of p or q ever used: re-adding a dropped name
+				// with another kind or type is the business of the flagged streams
+				eo.Names = []string{}
+				for _, nm := range progs.Names {
+					if !everUsed[nm] {
+						eo.Names = append(eo.Names, nm)
+					}
+				}
+				if len(eo.Names) == 0 {
+					kind = "trail-comment"
+				}
+			}
+			next := edit(r, cur, kind, eo, q)
+			note(next)
 			load("p.mtail", next)
 			if !next.Broken && kind != "kind-first" && kind != "kind-later" && kind != "cross-conflict" {
 				cur = next
@@ -174,6 +199,65 @@ func edit(r *vlib.Rand, cur *progs.Prog, kind string, o progs.GenOpts, q *progs.
 		return progs.Edit(r, n, "rules", o)
 	}
 	return progs.Edit(r, cur, kind, o)
+}
+
+// corpus: the witnesses of the findings of DESIGN.md section 6, run first on
+// every check.
+func corpus() []hist {
+	rule := func(tok string, st ...progs.Stmt) progs.Rule { return progs.Rule{Tok: tok, Stmts: st} }
+	mk := func(flag string, f func(w *progs.World, add func(progs.Op))) hist {
+		h := hist{w: progs.NewWorld(), flag: flag}
+		f(h.w, func(o progs.Op) { h.ops = append(h.ops, o) })
+		return h
+	}
+	ld := func(w *progs.World, name string, p *progs.Prog) progs.Op {
+		return progs.Op{K: "load", Prog: name, Src: w.Src(p)}
+	}
+	ln := func(s string) progs.Op { return progs.Op{K: "line", Line: s} }
+	return []hist{
+		// expiry pending on g[u] must survive a comment-only reload
+		mk("corpus:expiry", func(w *progs.World, add func(progs.Op)) {
+			p := &progs.Prog{Decls: []progs.Decl{{Kind: "gauge", Name: "g", Keys: []string{"k"}}},
+				Rules: []progs.Rule{rule("a", progs.Stmt{Op: "set", M: 0, Val: 1}), rule("b", progs.Stmt{Op: "expire", M: 0, Dur: "1h"})}}
+			add(ld(w, "p.mtail", p))
+			add(ln("a u"))
+			add(ln("b u"))
+			q := p.Clone()
+			q.Trail = 1
+			add(ld(w, "p.mtail", q))
+			add(progs.Op{K: "gc"})
+			add(ln("a v"))
+		}),
+		// a comment line above `counter x` moves the declaration
+		mk("corpus:moved-decl", func(w *progs.World, add func(progs.Op)) {
+			p := &progs.Prog{Decls: []progs.Decl{{Kind: "counter", Name: "x"}}, Rules: []progs.Rule{rule("a", progs.Stmt{Op: "inc", M: 0})}}
+			add(ld(w, "p.mtail", p))
+			add(ln("a u"))
+			q := p.Clone()
+			q.Lead = 1
+			add(ld(w, "p.mtail", q))
+			add(ln("a u"))
+		}),
+		// b.mtail is refused at its second metric; its first stays registered
+		mk("corpus:refused", func(w *progs.World, add func(progs.Op)) {
+			a := &progs.Prog{Decls: []progs.Decl{{Kind: "gauge", Name: "y"}}, Rules: []progs.Rule{rule("a", progs.Stmt{Op: "set", M: 0, Val: 2})}}
+			b := &progs.Prog{Decls: []progs.Decl{{Kind: "counter", Name: "x"}, {Kind: "counter", Name: "y"}},
+				Rules: []progs.Rule{rule("a", progs.Stmt{Op: "inc", M: 0}, progs.Stmt{Op: "inc", M: 1})}}
+			add(ld(w, "a.mtail", a))
+			add(ld(w, "b.mtail", b))
+			add(ln("a u"))
+		}),
+		// the value type of g changes from Int to Float
+		mk("corpus:type-change", func(w *progs.World, add func(progs.Op)) {
+			p := &progs.Prog{Decls: []progs.Decl{{Kind: "gauge", Name: "g"}}, Rules: []progs.Rule{rule("a", progs.Stmt{Op: "set", M: 0, Val: 1})}}
+			add(ld(w, "p.mtail", p))
+			add(ln("a u"))
+			q := p.Clone()
+			q.Decls[0].Float = true
+			add(ld(w, "p.mtail", q))
+			add(ln("a u"))
+		}),
+	}
 }
 
 // ---- the property, as predicates on consecutive snapshots ----
@@ -367,15 +451,21 @@ func main() {
 		replay(a.Replay)
 		return
 	}
-	out := vlib.NewOut(a, "From V Require Import Corr.Run_C14.", "lcase", 150)
+	out := vlib.NewOut(a, progs.Header("Run_C14"), "lcase", 60)
 	rng := vlib.NewRand(a.Seed)
 	nmain, nflag := 260, 45
 	if a.Thorough() {
 		nmain, nflag = 5000, 500
 	}
+	var one func(h hist)
 	run := func(flag string, n int) {
 		for i := 0; i < n; i++ {
-			h := genHistory(rng.Fork(), flag, 5+rng.Intn(6))
+			one(genHistory(rng.Fork(), flag, 5+rng.Intn(6)))
+		}
+	}
+	one = func(h hist) {
+		{
+			flag := h.flag
 			c := h.w.Run(h.ops, h.omit, false)
 			c.Note = flag
 			id := out.NextID()
@@ -405,6 +495,9 @@ func main() {
 				out.Violate(f.class, f.what, map[string]any{"kind": "history", "case": c})
 			}
 		}
+	}
+	for _, h := range corpus() {
+		one(h)
 	}
 	run("", nmain)
 	for _, f := range []string{"moved-decl", "type-change", "kind-later", "cross-conflict"} {
